@@ -263,7 +263,7 @@ theorem gen_expAdd : MpsGen.Alg.expAdd =
 /-- [C02] ties Alg.expConstant? -/
 theorem gen_expConstant : MpsGen.Alg.expConstant =
     [ "c := p.group.NewPoint()",
-      "if p.IsConstant {",
+      "if p.IsConstant || len(p.coefficients) == 0 {",
       "return c",
       "}",
       "return p.coefficients[0]" ] := by decide
@@ -326,11 +326,12 @@ theorem gen_frostDeriveChild : MpsGen.Alg.frostDeriveChild =
     [ "bip32.DeriveScalar(publicKey, r.ChainKey, i)",
       "r.Derive(scalar, newChainKey)" ] := by decide
 
-/-- [C02] ties Alg.frostRefreshConstCheck — and NO degree rule in this list -/
+/-- [C02] ties Alg.frostRefreshConstCheck — with the degree rule (since ae5924a: a commitment of another degree is refused) -/
 theorem gen_frostKeygenChecks : MpsGen.Alg.frostKeygenChecks =
     [ "!ok || body == nil => round.ErrInvalidContent",
       "(!r.refresh && !body.Sigma_i.IsValid()) || body.Phi_i == nil => round.ErrNilFields",
       "err := body.Commitment.Validate(); err != nil => fmt.Errorf(\"commitment: %w\", err)",
+      "body.Phi_i.Degree() != r.threshold => fmt.Errorf(\"party %s sent a polynomial of degree %d, expected %d\", from, body.Phi_i.Degree(), r.threshold)",
       "!body.Phi_i.Constant().IsIdentity() => fmt.Errorf(\"party %s sent a non-zero constant while refreshing\", from)",
       "!body.Sigma_i.Verify(r.Helper.HashForID(from), body.Phi_i.Constant(), nil) => fmt.Errorf(\"failed to verify Schnorr proof for party %s\", from)" ] := by decide
 
@@ -499,7 +500,8 @@ theorem gen_scalarSetNat : MpsGen.Alg.scalarSetNat =
 /-- [C08] ties Alg.finalShare as a PURE function of the previous share: on refresh the rounds work on a copy
     (`NewScalar().Set(privateShare)`, since 8e08e3b), so the caller's old config is not modified -/
 theorem gen_frostRefreshStart : MpsGen.Alg.frostRefreshStart =
-    [ "refresh := true",
+    [ "if privateShare != nil && publicKey != nil {",
+      "refresh := true",
       "if privateShare != nil && publicKey != nil {",
       "privateShare = group.NewScalar().Set(privateShare)",
       "if privateShare == nil || publicKey == nil {",
